@@ -303,7 +303,28 @@ func c15Check(c *c15Case, files map[string]string) (got []string, sig, what stri
 			return got, cls + ":" + c.Entry, fmt.Sprintf("%s of %q from %s hands %q to the loader/cache (not a clean absolute path)", c.Entry, c.Name, c.Referrer, p)
 		}
 	}
-	if strings.Join(got, "|") != strings.Join(want, "|") {
+	// loader requests must be exactly the reference resolution's; cache requests must all be for that
+	// resolution (which cache keys are probed, and how often, is not part of the statement)
+	loader := func(t []string) string {
+		var o []string
+		for _, x := range t {
+			if x[0] == 'E' || x[0] == 'O' {
+				o = append(o, x)
+			}
+		}
+		return strings.Join(o, "|")
+	}
+	keys := map[string]bool{}
+	for _, w := range want {
+		keys[w[2:]] = true
+	}
+	bad := loader(got) != loader(want)
+	for _, g := range got {
+		if (g[0] == 'G' || g[0] == 'P') && !keys[g[2:]] {
+			bad = true
+		}
+	}
+	if bad {
 		c.Got, c.Want = got, want
 		return got, "", fmt.Sprintf("%s of %q from %s: request trace differs from the reference resolution", c.Entry, c.Name, c.Referrer)
 	}
